@@ -168,6 +168,34 @@ Theorem C02_unconfirmed_key_accepts_and_promotes : forall st idx key ctr plain i
 Proof. exact unconfirmed_key_accepts_and_promotes. Qed.
 Print Assumptions C02_unconfirmed_key_accepts_and_promotes.
 
+(* Peer removal: the peer's keypairs are gone, it is marked as gone, and no
+   allowed-IP entry names it any more. *)
+Theorem C02_removed_peer_has_no_keys : forall st p,
+  let st' := fst (step st (Remove p)) in
+  (forall q, nth_error (s_peers st') (N.to_nat p) = Some q ->
+             k_prev q = None /\ k_cur q = None /\ k_next q = None) /\
+  is_gone st' p = true /\
+  (forall e, In e (s_tbl st') -> e_owner e <> p).
+Proof. exact removed_peer_has_no_keys. Qed.
+Print Assumptions C02_removed_peer_has_no_keys.
+
+(* ... and whatever happens afterwards (handshakes with it included), nothing
+   is ever written to the TUN on behalf of the removed peer. *)
+Theorem C02_removed_peer_never_written : forall evs st p,
+  is_gone st p = true ->
+  (forall q, nth_error (s_peers st) (N.to_nat p) = Some q ->
+             k_prev q = None /\ k_cur q = None /\ k_next q = None) ->
+  forall rs r i w, In rs (outs step st evs) -> In r rs -> r_write r = Some (i, w) -> i <> p.
+Proof. exact removed_peer_never_written. Qed.
+Print Assumptions C02_removed_peer_never_written.
+
+Theorem C02_gone_inv_step : forall p st ev,
+  Gone p st ->
+  Gone p (fst (step st ev)) /\
+  forall r i w, In r (snd (step st ev)) -> r_write r = Some (i, w) -> i <> p.
+Proof. exact gone_inv_step. Qed.
+Print Assumptions C02_gone_inv_step.
+
 (* ------------------------------------------------------------------ non-vacuity *)
 
 (* 28 bytes received, IPv4 header declaring 24 *)
@@ -186,7 +214,8 @@ Proof. vm_compute. reflexivity. Qed.
 (* one peer owning 10.0.0.0/8, no keypairs yet *)
 Definition c02_init : state :=
   {| s_tbl := [{| e_fam := V4; e_bits := 167772160; e_len := 8; e_owner := 0 |}];
-     s_peers := [{| k_prev := None; k_cur := None; k_next := None |}] |}.
+     s_peers := [{| k_prev := None; k_cur := None; k_next := None |}];
+     s_gone := [] |}.
 
 (* handshake, then the same datagram twice: exactly one write of the declared
    24 bytes, credited 28 + 32 bytes; the replay yields nothing *)
@@ -241,3 +270,18 @@ Example C02_trace_unconfirmed :
      Dgrams [Transport 88 2 false 0 c02_pkt; Transport 88 2 false 0 c02_pkt; Transport 77 1 false 1 c02_pkt]])
   = [ []; []; [Some (0, firstn 24 c02_pkt); None; Some (0, firstn 24 c02_pkt)] ].
 Proof. vm_compute. reflexivity. Qed.
+
+(* removal: the old key is dead, a handshake with the removed peer installs
+   nothing, so neither datagram is written (nor even counted) *)
+Example C02_trace_removed :
+  outs step c02_init
+    [Handshake 0 77 1; Remove 0; Handshake 0 88 2;
+     Dgrams [Transport 77 1 false 1 c02_pkt; Transport 88 2 false 1 c02_pkt]]
+  = [ []; []; []; [nothing; nothing] ].
+Proof. vm_compute. reflexivity. Qed.
+
+(* the premises of removed_peer_never_written are met after a Remove *)
+Example C02_trace_removed_premises :
+  let st := final step c02_init [Handshake 0 77 1; Remove 0] in
+  is_gone st 0 = true /\ s_peers st = [{| k_prev := None; k_cur := None; k_next := None |}] /\ s_tbl st = [].
+Proof. vm_compute. repeat split. Qed.
